@@ -453,6 +453,15 @@ def _is_local_pure(node):
   return True
 
 
+def _is_attr_pure(node):
+  """Condition without calls (attribute / subscript reads allowed): stable until the next
+  call or write."""
+  for n in ast.walk(node):
+    if isinstance(n, ast.Call):
+      return False
+  return True
+
+
 def written_names(st):
   out = set()
   targets = []
@@ -490,13 +499,17 @@ def feasible(events):
     if e.kind == 'cond' and isinstance(e.node, ast.Name) and e.node.id in consts:
       if consts[e.node.id] != e.info:
         return False
+    if e.kind == 'call' or (e.kind == 'stmt' and not isinstance(e.node, (ast.Pass, ast.Global, ast.Nonlocal))):
+      # attribute-based facts do not survive calls or writes
+      for k in [k for k, v in facts.items() if v[2]]:
+        del facts[k]
     if e.kind == 'cond':
-      if not _is_local_pure(e.node):
+      if not _is_attr_pure(e.node):
         continue
       key = unparse(e.node)
       if key in facts and facts[key][0] != e.info:
         return False
-      facts[key] = (e.info, _names_in(e.node))
+      facts[key] = (e.info, _names_in(e.node), not _is_local_pure(e.node))
     elif e.kind in ('stmt', 'for_iter', 'with_enter'):
       w = written_names(e.node)
       if w:
